@@ -125,6 +125,19 @@ class Board:
         elif kind == 'sev':
             r.event_register = True
             self.count('fault.sev')
+        elif kind == 'regswap':
+            # the integrator restores a checkpoint of the register file: arm.registers is REPLACED by a deep copy of itself (same state, another
+            # object).  Whatever the processor does afterwards must be done to the register file it now has
+            import copy
+            from .entrymon import METHODS
+            new = copy.deepcopy(r)
+            for name in METHODS:
+                new.__dict__.pop(name, None)         # (this harness's own wrappers on the old object do not travel)
+            arm.registers = new
+            for o in self.observers:
+                if hasattr(o, 'install') and getattr(o, 'ci', 0) == ev.get('core', 0):
+                    o.install(arm)
+            self.count('fault.register-file-swap')
         else:
             raise ValueError('unknown event kind %r' % kind)
         post = light(arm)
